@@ -230,6 +230,19 @@ ROUND5 = {
  "C19": " Round 5: (R5) in both kick formulas a phase step acts as a shift of the columns by phase/(bl2phase*delta) and the amplitude multiplies the whole position- and phase-dependent part.",
  "C20": " Round 5: (R9) exceptions of the boost parsers leave parse() (a handler that does not re-throw would turn an unknown option or malformed value into a success status).",
 }
+ROUND6 = {
+ "C01": " Round 6: block copies are read in one form (copy_n / copy / memcpy with a sizeof factor); R5 judges a constant stored into the destination of the damping/diffusion step under a condition on the data.",
+ "C02": " Round 6: (R10) the centre updateSM adds is the centre apply subtracts (re-evaluates C01 R2: a half-cell bias on odd grids).",
+ "C03": " Round 6: R5 also re-evaluates the extent of the Identity copy (C08 R4).",
+ "C04": " Round 6: R4 also re-evaluates how the damping/diffusion step applies its table (C01 R5).",
+ "C06": " Round 6: (R7) the spacing and bucket numbers the placement uses are the constructor arguments, unchanged.",
+ "C07": " Round 6: (R2) without a cut-off the factor of the spectrum is _formfactorrenorm itself.",
+ "C09": " Round 6: (R3) integrateAndNormalize() reaches normalize() on every path.",
+ "C11": " Round 6: (R6) the wake map holds no history (re-evaluates C05 R3); loop-head freshness is decided with correlated sign conditions (case split refined lazily).",
+ "C14": " Round 6: (R7) nothing the final block calls can throw an exception of the program uncaught (call graph over resolved callees).",
+ "C16": " Round 6: (R8) sample i of a table is the i-th distinct line: the de-duplication sentinel of readData is no harmonic number.",
+ "C18": " Round 6: (R5) construction reads geometry and configuration of the phase space only, never grid data or anything derived from it (effect summaries).",
+}
 RD_TEXT = (" Dimensional consistency (rule RD, engine E7): a units-of-measure inference over the whole program (dimension variables per storage location, "
            "linear constraints from every arithmetic expression, solved over the rationals; units taken from the options' help texts, the physcons constants "
            "and the unit names used as keys) shows that the quantities this property depends on have the dimensions their use demands, for every parameter set; "
@@ -244,6 +257,8 @@ for _p, _t in ROUND3.items():
 for _p, _t in ROUND4.items():
     CLAIMED[_p]["text"] = CLAIMED[_p]["text"].rstrip() + _t
 for _p, _t in ROUND5.items():
+    CLAIMED[_p]["text"] = CLAIMED[_p]["text"].rstrip() + _t
+for _p, _t in ROUND6.items():
     CLAIMED[_p]["text"] = CLAIMED[_p]["text"].rstrip() + _t
 CLAIMED["C13"]["note"] = CLAIMED["C13"]["note"].replace("two recorded as known findings (ForceOpenGLVersion type, run_anyway skipped)", "ForceOpenGLVersion repaired later (93250ff), run_anyway skipped is a known finding")
 CLAIMED["C19"]["technique"] = "call-argument role agreement (resolved constructors), symbolic folding of the modulation expressions, life-cycle typestate (may-dataflow over the CFGs of constructors and apply) and exactly-once counts on the CFG"
